@@ -8,6 +8,7 @@ import PygVerif.Model.Umn
 import PygVerif.Model.Cache
 import PygVerif.Model.Fail
 import PygVerif.Model.Zip
+import PygVerif.Model.Frame
 /-!
 # Driver — line protocol between the Python harness and the executable model
 
@@ -250,6 +251,16 @@ def step (fields : List String) : String :=
           | none => "!")))
   | ["normpath", s] => encStr (Zip.normpath (decStr s))
   | ["pathsplit", s] => let (a, b) := Zip.pathSplit (decStr s); encStr a ++ "\t" ++ encStr b
+  | ["respond", wire, head, kind, a, b, c] =>
+    let w : Wire := match wire with
+      | "gopher" => .gopher | "gopherp" => .gopherp | "http" => .http | "wap" => .wap | "gemini" => .gemini | _ => .spartan
+    let o : HOutcome := match kind with
+      | "notfound" => .notFound (decStr a)
+      | "ioerror" => .ioError (decStr a)
+      | "doc" => .document (decStr a) (if b == "!" then none else some b.toNat!) (decOpt c) []
+      | _ => .info []
+    encStr (respond w Generated.gplusAdmin (decBool head) o)
+  | ["statusline", code, mt] => encStr (statusLine (decStr code) (decStr mt))
   | ["skeleton", st, page] =>
     let (s, k) := run (tstateOf st) (decStr page)
     (match s with | .text => "text" | .tag => "tag" | .attrDq => "dq" | .attrSq => "sq") ++ "\t" ++ encStr k
